@@ -155,7 +155,10 @@ func (m *module) load(proj *Project) (starlark.StringDict, error) {
 	t, builtins, err := m.env(proj)
 	if err != nil {
 		proj.events.ModuleLoadFailed(m.label, err)
-		return nil, err
+
+		// Mark the module as done so that other modules that load it see the failure rather
+		// than waiting forever.
+		return m.done(nil, err)
 	}
 
 	v, err := m.done(starlark.ExecFile(t, m.path, nil, builtins))
